@@ -1377,6 +1377,10 @@ class Py2Cpp(ITranspiler):
 	# Operator
 
 	def on_factor(self, node: defs.Factor, operator: str, value: str) -> str:
+		# 単項演算子が連続する場合(例: `- -a`)は、括弧で囲わないとC++ではデクリメント/インクリメント(`--a`)と解釈されてしまう
+		if isinstance(node.value, defs.Factor):
+			value = f'({value})'
+
 		return self.render(node, 'operation/unary_operator', vars={'operator': operator, 'value': value})
 
 	def on_not_compare(self, node: defs.NotCompare, operator: str, value: str) -> str:
